@@ -59,6 +59,17 @@ func (p *EventTriggerRegisteredEventProcessor) FetchEvents(ctx context.Context, 
 	return events, nil
 }
 
+// SplitBlocks implements RangeSplitter: the trigger processor only looks for logs of triggers whose
+// registration has already been stored.
+func (p *EventTriggerRegisteredEventProcessor) SplitBlocks(events []Event) []uint64 {
+	blocks := []uint64{}
+	for _, event := range events {
+		registryEvent := event.(*triggerRegistryV1Bindings.Shuttereventtriggerregistryv1EventTriggerRegistered)
+		blocks = append(blocks, registryEvent.Raw.BlockNumber)
+	}
+	return blocks
+}
+
 func (p *EventTriggerRegisteredEventProcessor) ProcessEvents(ctx context.Context, tx pgx.Tx, events []Event) error {
 	queries := database.New(tx)
 	for _, event := range events {
